@@ -449,6 +449,80 @@ def extra_obligations(mods, tier, seed):
                 pass
             except Exception as ex:
                 bad.append({"factory": mname, "value": v, "error": f"{type(ex).__name__}: {ex}"})
+    # SerialMonitor histories (BOUNDED, executed on the real class with a recording pyserial stand-in): after any sequence of
+    # connect(port) / close() / write(value), a write sends str(value)+newline once, to an open connection on the port last connected to
+    # (nothing when closed), and returns str(value)
+    import random as _random
+    import types as _types
+    C = real("Reduino.Communication")
+    t1 = time.time()
+    badh, nh = [], 0
+
+    class _Fake:
+        opened = []
+
+        def __init__(self, *, port, baudrate, timeout):
+            self.port, self.baudrate, self.timeout, self.is_open, self.writes = port, baudrate, timeout, True, []
+            _Fake.opened.append(self)
+
+        def write(self, payload):
+            if not self.is_open:
+                raise RuntimeError("write on a closed port")
+            self.writes.append(payload)
+            return len(payload)
+
+        def readline(self):
+            return b""
+
+        def close(self):
+            self.is_open = False
+
+    saved = getattr(C, "serial", None)
+    C.serial = _types.SimpleNamespace(Serial=_Fake)
+    try:
+        rh = _random.Random(seed)
+        for trial in range(300):
+            nh += 1
+            del _Fake.opened[:]
+            newline = rh.choice(["\n", "\r\n"])
+            first = rh.choice([None, "P0", "P1"])
+            hist = [f"SerialMonitor(port={first!r}, newline={newline!r})"]
+            try:
+                mon = C.SerialMonitor(9600, port=first, newline=newline)
+                attached = first
+                for step in range(rh.randint(2, 8)):
+                    op = rh.choice(["connect", "connect", "close", "write", "write", "write"])
+                    if op == "connect":
+                        attached = rh.choice(["P0", "P1", "P2"])
+                        hist.append(f"connect({attached!r})")
+                        mon.connect(attached)
+                    elif op == "close":
+                        attached = None
+                        hist.append("close()")
+                        mon.close()
+                    else:
+                        v = rh.choice([0, 7, -3, 2.5, True, None, "text", "", "é"])
+                        hist.append(f"write({v!r})")
+                        before = {id(c): len(c.writes) for c in _Fake.opened}
+                        ret = mon.write(v)
+                        new = [(c.port, c.is_open, w) for c in _Fake.opened for w in c.writes[before.get(id(c), 0):]]
+                        want = [] if attached is None else [(attached, True, (str(v) + newline).encode("utf-8"))]
+                        if ret != str(v) or new != want:
+                            badh.append({"history": hist[:], "returned": ret, "sent (port, open, payload)": [list(map(str, x)) for x in new], "expected": [list(map(str, x)) for x in want]})
+                            break
+                still = [c.port for c in _Fake.opened if c.is_open]
+                if not badh and still not in ([], [attached]):
+                    badh.append({"history": hist[:], "problem": f"connections left open: {still}, the monitor is attached to {attached!r}"})
+            except Exception as ex:
+                badh.append({"history": hist[:], "error": f"{type(ex).__name__}: {ex}"})
+            if len(badh) >= 4:
+                break
+    finally:
+        C.serial = saved
+    out.append({"name": "C20/host/serial-monitor-histories", "status": "discharged" if not badh else "sat", "backend": "bounded-native", "bounded": True,
+                "where": f"{nh} random histories of connect/close/write on the real SerialMonitor over a recording serial stand-in: each write sends str(value)+newline once to the open "
+                         "connection on the port last connected to (nothing when closed) and returns str(value)",
+                "time": round(time.time() - t1, 3), "replay": {"bad": badh[:3]}, "replay_confirmed": bool(badh)})
     out.append({"name": "C20/factories/ultrasonic-objects-obey-the-base-contract", "status": "discharged" if not bad else "sat", "backend": "bounded-native", "bounded": True,
                 "where": f"{n} (factory spelling, value) runs: measure_distance() returns exactly the provider's / default value once, negatives are refused",
                 "time": round(time.time() - t0, 3), "replay": {"bad": bad[:4]}, "replay_confirmed": bool(bad)})
